@@ -701,7 +701,7 @@ func TestEntry(t *testing.T) {
 	if kit.Race() {
 		t.Skip("sequential, single goroutine per case")
 	}
-	propEntry.Check(t, kit.N(4000, 25000))
+	propEntry.Check(t, kit.N(3000, 25000))
 }
 
 func TestReplay(t *testing.T) { kit.Replay(t, propEntry, propMatrix, propSequence) }
